@@ -207,6 +207,19 @@ def gen_len_cusps(ctx):
         q = [F(rng.randint(-8, 8), 2) for _ in range(deg_p + 1)]
         if not any(p) or not any(q):
             continue
+        # ONE clean zero of the speed: the cofactor must stay away from zero on [-1/8, 9/8] (a second zero or dip close to the first is
+        # finding F21's phenomenon again - the thorough tier drew three such curves; they are pinned in checks/f21_extra.json)
+        grid_ = [F(k, 64) for k in range(-8, 73)]
+        pv = [oq.peval(p, x) if hasattr(oq, "peval") else sum(c_ * x ** i for i, c_ in enumerate(p)) for x in grid_]
+        qv = [sum(c_ * x ** i for i, c_ in enumerate(q)) for x in grid_]
+        if kind == "cusp":
+            mag = [u * u + v * v for u, v in zip(pv, qv)]
+        else:
+            mag = [u * u for u in pv]
+            if any(pv[i] * pv[i + 1] <= 0 for i in range(len(pv) - 1)):
+                continue
+        if min(mag) * 64 < max(mag):
+            continue
         fac = oq.poly_pow([-a, F(1)], 2 if kind == "cusp" else 1)
         dx = oq.poly_mul(fac, p)
         if kind == "cusp":
@@ -269,6 +282,12 @@ def near_cusp_corpus():
         if all(len(set(r)) == 1 for r in rows):
             continue
         out.append({"n": n, "rows": rows, "a": a, "kind": "near-double-back", "eps": eps, "index": len(out)})
+    # ... and the failing inputs the thorough tier found outside this corpus (speed with two zeros / dips close together)
+    import json as _json
+    import os as _os
+    for e in _json.load(open(_os.path.join(_os.path.dirname(__file__), "f21_extra.json")))["curves"]:
+        out.append({"n": e["n"], "rows": [[F(x) for x in r] for r in e["rows"]], "a": F(e["a"]), "kind": "pinned:" + e["kind"], "eps": F(e["eps"]),
+                    "index": len(out)})
     return out
 
 
